@@ -73,9 +73,6 @@ Proof.
   intros o Ha. apply avail_iff. apply avail_iff in Ha as [Ha|(n & Ha)]; [left; auto|right; exists n; auto].
 Qed.
 
-Lemma ids_eqb_refl l : ids_eqb l l = true.
-Proof. induction l; cbn; [reflexivity|]. now rewrite N.eqb_refl. Qed.
-
 Lemma repo_ok_files g fs : repo_ok g fs -> forall n, pack_file_ok fs n = true.
 Proof. intros [F _]. apply files_ok_iff in F. tauto. Qed.
 
@@ -569,6 +566,14 @@ Proof.
   destruct H as [H|[]]. inversion H; subst. assumption.
 Qed.
 
+Lemma prefix_map_ref l : forall ps' r, map PRef l = ps' ++ r -> exists l', ps' = map PRef l'.
+Proof.
+  induction l as [|x l IH]; intros ps' r E.
+  - destruct ps'; [now exists []|discriminate].
+  - destruct ps' as [|p ps]; [now exists []|].
+    cbn in E. inversion E; subst. destruct (IH _ _ H1) as (l' & ->). now exists (x :: l').
+Qed.
+
 Lemma packrefs_safe g fs : repo_ok g fs -> crash_safe g fs (op_packrefs fs).
 Proof.
   intro R. unfold crash_safe, op_packrefs.
@@ -576,7 +581,6 @@ Proof.
   assert (PK : packed_okP fs = true) by (destruct R as [F _]; apply files_ok_iff in F; tauto).
   unfold packed_okP in PK. destruct (packed_refs fs) as [old|] eqn:Eold; [|discriminate]. clear PK.
   set (all := loose_hash_refs fs ++ filter (fun e => negb (is_loose_name fs (fst e))) old).
-  (* any state that differs from fs by: packed-refs being empty-or-old-or-all, a temp file, some loose refs removed *)
   assert (Gen : forall s l',
             (forall q, (q = PHead \/ q = PShallow \/ q = PIndex \/ q = PConfig \/ (exists o, q = PLoose o) \/ (exists n x, q = PPackF n x)) ->
                        flookup s q = flookup fs q) ->
@@ -597,75 +601,63 @@ Proof.
     - apply filter_In in H as [H Hn]. cbn in Hn. apply negb_true_iff in Hn. unfold is_loose_name in Hn.
       apply fexists_false in Hn. now apply (Hold m o). }
   rewrite crash_states_app. apply Forall_app. split.
-  - (* packed-refs created empty *)
-    destruct (fexists fs PPacked) eqn:Ex; cbn [crash_states mid_states apply]; split_states.
+  - destruct (fexists fs PPacked) eqn:Ex; cbn [crash_states mid_states apply]; split_states.
     apply fexists_false in Ex.
     apply (Gen _ []); try (intros q Hq; flk; destruct Hq as [->|[->|[->|[->|[(o & ->)|(m & x & ->)]]]]]; reflexivity).
     + intro m. left. flk. reflexivity.
     + unfold packed_refs. flk. reflexivity.
     + intros m o [].
-  - destruct (ref_names fs) as [|n0 ns0] eqn:En; [constructor|]. rewrite <- En. clear En n0 ns0.
+  - destruct (ref_names fs) as [|n0 ns0] eqn:En; [constructor|]. clear En n0 ns0.
     set (s0 := run (if fexists fs PPacked then [] else [MCreate PPacked]) fs).
     assert (S0 : forall q, q <> PPacked -> flookup s0 q = flookup fs q).
     { intros q Hq. unfold s0. destruct (fexists fs PPacked); cbn [run fold_left apply]; [reflexivity|]. now rewrite flookup_other. }
     assert (P0 : packed_refs s0 = Some old).
     { unfold s0. destruct (fexists fs PPacked) eqn:Ex; cbn [run fold_left apply]; [assumption|].
       apply fexists_false in Ex. unfold packed_refs in *. flk. rewrite Ex in Eold. exact Eold. }
-    cbn [crash_states mid_states apply]. flk. rewrite ?Nat.eqb_refl. cbn [andb].
-    assert (T0 : forall c q, q <> PPacked -> q <> PTmp TPRefs 0 -> flookup (fset (fset s0 (PTmp TPRefs 0) Empty) (PTmp TPRefs 0) c) q = flookup fs q)
-      by (intros c q H1 H2; now rewrite !flookup_other, S0).
-    assert (Told : forall c, repo_ok g (fset (fset s0 (PTmp TPRefs 0) Empty) (PTmp TPRefs 0) c)).
-    { intro c. apply (Gen _ old).
+    (* states in which only the temp file differs from s0 *)
+    assert (Told : forall s, (forall q, q <> PPacked -> q <> PTmp TPRefs 0 -> flookup s q = flookup fs q) ->
+                             flookup s PPacked = flookup s0 PPacked -> repo_ok g s).
+    { intros s T0 Tp. apply (Gen _ old).
       - intros q Hq. apply T0; destruct Hq as [->|[->|[->|[->|[(o & ->)|(m & x & ->)]]]]]; discriminate.
       - intro m. left. apply T0; discriminate.
-      - revert P0. unfold packed_refs. now rewrite !flookup_other by discriminate.
+      - revert P0. unfold packed_refs. now rewrite Tp.
       - intros m o Hin Hn. rewrite T0 in Hn by discriminate. now apply (Hold m o). }
-    set (sr := fset (fdel (fset (fset s0 (PTmp TPRefs 0) Empty) (PTmp TPRefs 0) (Whole (DPackedRefs all))) (PTmp TPRefs 0)) PPacked (Whole (DPackedRefs all))).
-    assert (SR : forall q, q <> PPacked -> q <> PTmp TPRefs 0 -> flookup sr q = flookup fs q).
-    { intros q H1 H2. unfold sr. rewrite flookup_other, flookup_del_other by assumption. now apply T0. }
-    assert (Tdel : forall ns, repo_ok g (fold_left fdel (map PRef ns) sr)).
-    { intro ns. apply (Gen _ all).
+    (* states after the rename, with any set of loose reference files removed *)
+    assert (Tdel : forall sr ns, (forall q, q <> PPacked -> q <> PTmp TPRefs 0 -> flookup sr q = flookup fs q) ->
+                                 packed_refs sr = Some all -> repo_ok g (fold_left fdel (map PRef ns) sr)).
+    { intros sr ns SR Pr. apply (Gen _ all).
       - intros q Hq. rewrite flookup_fold_fdel.
         destruct Hq as [->|[->|[->|[->|[(o & ->)|(m & x & ->)]]]]]; apply SR; discriminate.
       - intro m. rewrite flookup_fold_fdel. destruct (existsb (String.eqb m) ns); [now right|left; apply SR; discriminate].
-      - unfold packed_refs. rewrite flookup_fold_fdel. unfold sr. flk. reflexivity.
+      - revert Pr. unfold packed_refs. now rewrite flookup_fold_fdel.
       - intros m o Hin _. now apply (Hall m o). }
-    split_states.
-    + apply (Gen _ old).
-      * intros q Hq. rewrite flookup_other, S0; [reflexivity| |]; destruct Hq as [->|[->|[->|[->|[(o & ->)|(m & x & ->)]]]]]; discriminate.
-      * intro m. left. rewrite flookup_other, S0; [reflexivity| |]; discriminate.
-      * revert P0. unfold packed_refs. now rewrite flookup_other by discriminate.
-      * intros m o Hin Hn. rewrite flookup_other, S0 in Hn by discriminate. now apply (Hold m o).
-    + apply Told.
-    + apply Told.
-    + apply (Tdel []).
-    + apply Forall_app. split.
-      * apply Forall_forall. intros s Hs. apply remove_prefixes_spec in Hs as (ps' & -> & r & E).
-        assert (exists ns', ps' = map PRef ns') as (ns' & ->).
-        { clear -E. revert ps' r E. generalize (ssort (ref_names fs)). intros l ps'. revert l.
-          induction ps' as [|p ps IH]; intros l r E; [now exists []|].
-          destruct l as [|x l]; [discriminate|]. cbn in E. inversion E; subst.
-          destruct (IH _ _ H1) as (ns & ->). now exists (x :: ns). }
-        apply Tdel.
-      * constructor; [apply Tdel|constructor].
+    set (W := match all with [] => [] | _ => [MWrite (PTmp TPRefs 0) (DPackedRefs all)] end).
+    set (s1 := run ([MTemp (PTmp TPRefs 0)] ++ W) s0).
+    assert (S1 : forall q, q <> PPacked -> q <> PTmp TPRefs 0 -> flookup s1 q = flookup fs q).
+    { intros q H1 H2. unfold s1, W. destruct all; cbn [app run fold_left apply]; rewrite ?flookup_other by assumption; now apply S0. }
+    assert (S1t : exists c, flookup s1 (PTmp TPRefs 0) = Some c /\ packed_refs (fset (fdel s1 (PTmp TPRefs 0)) PPacked c) = Some all).
+    { unfold s1, W. destruct all as [|e0 al] eqn:Ea; cbn [app run fold_left apply].
+      - exists Empty. split; [flk; reflexivity|unfold packed_refs; flk; reflexivity].
+      - exists (Whole (DPackedRefs (e0 :: al))). split; [flk; reflexivity|unfold packed_refs; flk; reflexivity]. }
+    destruct S1t as (c1 & Ht1 & Pr1).
+    set (sr := fset (fdel s1 (PTmp TPRefs 0)) PPacked c1).
+    assert (SR : forall q, q <> PPacked -> q <> PTmp TPRefs 0 -> flookup sr q = flookup fs q).
+    { intros q H1 H2. unfold sr. rewrite flookup_other, flookup_del_other by assumption. now apply S1. }
+    change (Forall (repo_ok g) (crash_states (([MTemp (PTmp TPRefs 0)] ++ W) ++ [MRename (PTmp TPRefs 0) PPacked]
+              ++ match map fst (loose_hash_refs fs) with [] => [] | n :: l => [MRemoveSet (map PRef (n :: l))] end) s0)).
+    rewrite crash_states_app. apply Forall_app. split.
+    + unfold W. destruct all; cbn [app crash_states mid_states apply]; split_states;
+        (apply Told; [intros q H1 H2; rewrite ?flookup_other by assumption; now apply S0|now rewrite ?flookup_other by discriminate]).
+    + fold s1. cbn [app crash_states mid_states apply]. rewrite Ht1. fold sr. apply Forall_cons.
+      * apply (Tdel sr [] SR Pr1).
+      * destruct (map fst (loose_hash_refs fs)) as [|n l] eqn:El; [constructor|]. rewrite <- El. clear El.
+        cbn [crash_states mid_states apply]. apply Forall_app. split.
+        -- apply Forall_forall. intros s Hs. apply remove_prefixes_spec in Hs as (ps' & -> & r & E).
+           destruct (prefix_map_ref _ _ _ E) as (ns' & ->). now apply Tdel.
+        -- constructor; [now apply Tdel|constructor].
 Qed.
 
 (* ---------- Prune and RepackObjects: the link to the C22 walker ---------- *)
-
-Lemma In_insert_n x y l : In x (insert_n y l) <-> x = y \/ In x l.
-Proof.
-  induction l as [|z l IH]; cbn [insert_n].
-  - cbn. intuition congruence.
-  - destruct (y =? z) eqn:E.
-    + apply N.eqb_eq in E. subst. cbn. intuition congruence.
-    + destruct (y <? z); cbn [In]; [intuition congruence|]. rewrite IH. intuition congruence.
-Qed.
-
-Lemma In_sort_n x l : In x (sort_n l) <-> In x l.
-Proof.
-  unfold sort_n. induction l as [|y l IH]; cbn [fold_right]; [tauto|].
-  rewrite In_insert_n, IH. cbn. intuition congruence.
-Qed.
 
 Lemma in_loose_ids fs o : In o (loose_ids fs) <-> loose_ok fs o = true.
 Proof.
@@ -687,7 +679,7 @@ Proof.
   - intros [H|(n & H)]; [now left|right].
     unfold in_pack in H. destruct (pack_objs fs n) as [os|] eqn:E; [|discriminate].
     apply andb_true_iff in H as [Hi Hm].
-    exists {| p_old := existsb (String.eqb n) op; p_promisor := pack_is_promisor fs n; p_objs := if idx_ok fs n os then os else [] |}.
+    exists {| p_name := (sort_n os, 0); p_old := existsb (String.eqb n) op; p_promisor := pack_is_promisor fs n; p_objs := if idx_ok fs n os then os else [] |}.
     split; [|cbn; now rewrite Hi].
     apply in_map_iff. exists (n, os). split; [reflexivity|].
     unfold pack_files. apply in_flat_map. exists n. split; [|rewrite E; now left].
